@@ -155,7 +155,7 @@ fn owes_reply_case(raw: [u8; sv::B], raw_len: usize, reply_len: usize) {
     std::mem::forget(req);
 }
 
-// @harness name=c08_poll_input_owes_reply props=C08,C09 tier=quick timeout=1500 rmbody=ioerr,nogrow,nonv,nocontend mem=20 unwindset=stream::Parser::<'_>::parse$:3;Request::<'_,.*>::poll_input$:3;Request::<'_,.*>::poll_output$:5;slab::IterMut<.*>.as.std::iter::Iterator>::next$:2;drop_glue::<.slab::Entry<.*>.>$:2
+// @harness name=c08_poll_input_owes_reply props=C08,C09 tier=quick timeout=1500 rmbody=ioerr,nogrow,nonv,nowaiters mem=20 unwindset=stream::Parser::<'_>::parse$:3;Request::<'_,.*>::poll_input$:3;Request::<'_,.*>::poll_output$:5;slab::IterMut<.*>.as.std::iter::Iterator>::next$:2;drop_glue::<.slab::Entry<.*>.>$:2
 // @bound Responder request at a record boundary, active stream Stdin; the raw region holds ONE complete record of unknown type (type 12, id symbolic) that was read earlier; the peer sends nothing more until it sees the reply: reader answers Pending (or EOF); writer accepts any split (<= 2 short writes) or Pending (<= 1). One poll of Request::poll_read.
 // @functions Request::poll_input, Request::poll_output, stream::Parser::parse, RepeatableLockFuture::poll
 #[kani::proof]
@@ -172,7 +172,7 @@ fn c08_poll_input_owes_reply() {
     owes_reply_case(raw, 8, 16);
 }
 
-// @harness name=c08_poll_input_owes_getvalues props=C08 tier=thorough timeout=7000 rmbody=ioerr,nogrow,nocontend mem=24 unwindset=stream::Parser::<'_>::parse$:4;Request::<'_,.*>::poll_input$:3;Request::<'_,.*>::poll_output$:5;slab::IterMut<.*>.as.std::iter::Iterator>::next$:2;drop_glue::<.slab::Entry<.*>.>$:2
+// @harness name=c08_poll_input_owes_getvalues props=C08 tier=thorough timeout=7000 rmbody=ioerr,nogrow,nowaiters mem=24 unwindset=stream::Parser::<'_>::parse$:4;Request::<'_,.*>::poll_input$:3;Request::<'_,.*>::poll_output$:5;slab::IterMut<.*>.as.std::iter::Iterator>::next$:2;drop_glue::<.slab::Entry<.*>.>$:2
 // @bound as c08_poll_input_owes_reply, the buffered record being a GetValues query (3-byte body, symbolic name byte, 5 bytes padding); parse_name / write_response = E5 models
 // @functions Request::poll_input, Request::poll_output, stream::Parser::parse
 #[kani::proof]
@@ -189,12 +189,57 @@ fn c08_poll_input_owes_getvalues() {
 
 // ------------------------------------------------------------------------------------------------ C10: StreamWriter
 
+/// Checking transport for the writer harnesses: knows the ONE record that must appear on the wire and checks every
+/// vectored write against it on the fly (offered bytes == exactly the not-yet-sent rest of the record); accepts a
+/// symbolic number of bytes.  No byte log (symbolic-index array WRITES are what makes CBMC run out of memory).
+pub(crate) struct ExpectW { pub exp: [u8; 40], pub exp_len: usize, pub pos: usize, pub calls: usize, pub pend_budget: usize, pub partial_budget: usize }
+impl AsyncWrite for ExpectW {
+    fn poll_write(self: Pin<&mut Self>, cx: &mut Context<'_>, buf: &[u8]) -> Poll<io::Result<usize>> {
+        let bufs = [IoSlice::new(buf)];
+        self.poll_write_vectored(cx, &bufs)
+    }
+    fn poll_write_vectored(self: Pin<&mut Self>, _cx: &mut Context<'_>, bufs: &[IoSlice<'_>]) -> Poll<io::Result<usize>> {
+        let this = self.get_mut();
+        this.calls += 1;
+        let mut total = 0;
+        let mut j = 0;
+        while j < bufs.len() {
+            let b: &[u8] = &bufs[j];
+            let mut i = 0;
+            while i < b.len() {
+                assert!(this.pos + total + i < this.exp_len, "C10: more bytes offered than the record has left (stray bytes on the wire)");
+                assert!(b[i] == this.exp[this.pos + total + i], "C10: byte offered to the transport differs from the record (header / payload / zero padding) at this position");
+                i += 1;
+            }
+            total += b.len();
+            j += 1;
+        }
+        assert!(total == this.exp_len - this.pos, "C10: a vectored write must offer exactly the rest of the record");
+        if this.pend_budget > 0 && kani::any() { this.pend_budget -= 1; return Poll::Pending; }
+        let mut k = total;
+        if this.partial_budget > 0 && total > 1 {
+            let c: usize = kani::any();
+            kani::assume(1 <= c && c <= total);
+            if c < total { this.partial_budget -= 1; }
+            k = c;
+        }
+        this.pos += k;
+        Poll::Ready(Ok(k))
+    }
+    fn poll_flush(self: Pin<&mut Self>, _cx: &mut Context<'_>) -> Poll<io::Result<()>> { Poll::Ready(Ok(())) }
+    fn poll_close(self: Pin<&mut Self>, _cx: &mut Context<'_>) -> Poll<io::Result<()>> { Poll::Ready(Ok(())) }
+}
+
 fn writer_case<const N: usize>() {
     let payload: [u8; N] = kani::any();
     let id: u16 = kani::any();
     kani::assume(id != 0);
     let stream = if kani::any() { fcgi::RecordType::Stdout } else { fcgi::RecordType::Stderr };
-    let arc = Arc::new(Mutex::new(MockW::new(1, 3)));
+    let pad = (8 - N % 8) % 8;
+    let mut exp = [0u8; 40];
+    exp[0] = 1; exp[1] = u8::from(stream); exp[2] = (id >> 8) as u8; exp[3] = id as u8; exp[4] = (N >> 8) as u8; exp[5] = N as u8; exp[6] = pad as u8;
+    let mut i = 0; while i < N { exp[8 + i] = payload[i]; i += 1; }
+    let arc = Arc::new(Mutex::new(ExpectW { exp, exp_len: 8 + N + pad, pos: 0, calls: 0, pend_budget: 1, partial_budget: 3 }));
     let mut sw = StreamWriter { writer: arc.clone(), lock: None, head: fcgi::RecordHeader::new(stream, id), head_idx: 0, orig_len: 0 };
     let mut cx = noop_cx();
     let mut pendings = 0;
@@ -203,50 +248,46 @@ fn writer_case<const N: usize>() {
             Poll::Ready(r) => break r,
             Poll::Pending => {
                 pendings += 1;
-                assert!(pendings <= 1, "mock gives at most one Pending");
+                assert!(pendings <= 1, "transport gives at most one Pending");
                 assert!(arc.try_lock().is_none(), "C10: output lock released while a record is in progress (another writer could interleave)");
                 kani::cover!(true, "suspended in the middle of a record");
             }
         }
     };
     let n = match res { Ok(n) => n, Err(e) => { std::mem::forget(e); panic!("transport never fails in this harness") } };
-    assert!(n == N, "successful write must report exactly the payload length");
+    assert!(n == N, "C10: a successful write must report exactly the payload length");
     assert!(sw.lock.is_none() && sw.head.content_length == 0 && sw.head.padding_length == 0, "writer not reset after a complete record");
     let g = arc.try_lock().expect("C10: output lock still held after a complete record");
-    let pad = (8 - N % 8) % 8;
-    assert!(g.len == 8 + N + pad, "bytes on the transport are not exactly one record (header + payload + padding)");
-    let l = &g.log;
-    assert!(l[0] == 1 && l[1] == u8::from(stream) && l[2] == (id >> 8) as u8 && l[3] == id as u8, "record header: version/type/id wrong");
-    assert!(l[4] == (N >> 8) as u8 && l[5] == N as u8 && l[6] == pad as u8 && l[7] == 0, "record header: lengths wrong");
-    let i: usize = kani::any();
-    if i < N { assert!(l[8 + i] == payload[i], "payload bytes differ from the bytes written"); }
-    if i < pad { assert!(l[8 + N + i] == 0, "padding not zero"); }
+    assert!(g.pos == g.exp_len, "C10: the record was not sent completely (header + payload + padding)");
     kani::cover!(g.calls >= 3, "record sent with at least two short writes");
+    kani::cover!(g.calls == 1, "record accepted in one write");
     std::mem::forget(g);
     std::mem::forget(sw);
     std::mem::forget(arc);
 }
 
-// @harness name=c10_writer_3 props=C10,C07 tier=quick timeout=1500 rmbody=ioerr,nogrow,nocontend mem=20 unwindset=StreamWriter<.*>.as.futures_util::AsyncWrite>::poll_write$:6;slab::IterMut<.*>.as.std::iter::Iterator>::next$:2;drop_glue::<.slab::Entry<.*>.>$:2
-// @bound one StreamWriter (Stdout|Stderr, any id), payload of 3 symbolic bytes (5 padding bytes), transport accepting any 1..n bytes per vectored write with <= 3 short writes (cuts inside the header, at the seams, inside the padding) and <= 1 Pending; polled to completion
-// @functions StreamWriter::poll_write, RepeatableLockFuture::poll, RecordHeader::{set_lengths,to_bytes,padding_bytes}
-#[kani::proof]
-#[kani::unwind(10)]
-fn c10_writer_3() { writer_case::<3>(); }
+macro_rules! writer_harness {
+    ($name:ident, $n:expr) => {
+        #[kani::proof]
+        #[kani::unwind(10)]
+        fn $name() { writer_case::<$n>(); }
+    };
+}
 
-// @harness name=c10_writer_8 props=C10 tier=quick timeout=1500 rmbody=ioerr,nogrow,nocontend mem=20 unwindset=StreamWriter<.*>.as.futures_util::AsyncWrite>::poll_write$:6;slab::IterMut<.*>.as.std::iter::Iterator>::next$:2;drop_glue::<.slab::Entry<.*>.>$:2
+// @harness name=c10_writer_3 props=C10,C07 tier=quick timeout=1500 rmbody=ioerr,nogrow,nowaiters mem=20 unwindset=StreamWriter<.*>.as.futures_util::AsyncWrite>::poll_write$:6;drop_glue::<.slab::Entry<.*>.>$:2
+// @bound one StreamWriter (Stdout|Stderr, any id), payload of 3 symbolic bytes (5 padding bytes); the transport checks every vectored write against the expected record and accepts any 1..n bytes with <= 3 short writes (cuts inside the header, at the seams, inside the padding) and <= 1 Pending; polled to completion
+// @functions StreamWriter::poll_write, RepeatableLockFuture::poll, RecordHeader::{set_lengths,to_bytes,padding_bytes}
+writer_harness!(c10_writer_3, 3);
+
+// @harness name=c10_writer_8 props=C10 tier=quick timeout=1500 rmbody=ioerr,nogrow,nowaiters mem=20 unwindset=StreamWriter<.*>.as.futures_util::AsyncWrite>::poll_write$:6;drop_glue::<.slab::Entry<.*>.>$:2
 // @bound as c10_writer_3 with a payload of 8 symbolic bytes (no padding)
 // @functions StreamWriter::poll_write
-#[kani::proof]
-#[kani::unwind(10)]
-fn c10_writer_8() { writer_case::<8>(); }
+writer_harness!(c10_writer_8, 8);
 
-// @harness name=c10_writer_9 props=C10 tier=thorough timeout=6000 rmbody=ioerr,nogrow,nocontend mem=24 unwindset=StreamWriter<.*>.as.futures_util::AsyncWrite>::poll_write$:6;slab::IterMut<.*>.as.std::iter::Iterator>::next$:2;drop_glue::<.slab::Entry<.*>.>$:2
+// @harness name=c10_writer_9 props=C10 tier=thorough timeout=6000 rmbody=ioerr,nogrow,nowaiters mem=24 unwindset=StreamWriter<.*>.as.futures_util::AsyncWrite>::poll_write$:6;drop_glue::<.slab::Entry<.*>.>$:2
 // @bound as c10_writer_3 with a payload of 9 symbolic bytes (7 padding bytes)
 // @functions StreamWriter::poll_write
-#[kani::proof]
-#[kani::unwind(11)]
-fn c10_writer_9() { writer_case::<9>(); }
+writer_harness!(c10_writer_9, 9);
 
 // ------------------------------------------------------------------------------------------------ C09 / C12: async reads
 
@@ -256,7 +297,7 @@ fn stdin_trace(id: u16, pl: [u8; 3]) -> [u8; sv::B] {
     [1, 5, h, l, 0, 3, 5, 0, pl[0], pl[1], pl[2], 0, 0, 0, 0, 0, 1, 5, h, l, 0, 0, 0, 0]
 }
 
-// @harness name=c09_read_buffered_trace props=C09,C02 tier=quick timeout=1800 rmbody=ioerr,nogrow,nonv,nocontend mem=20 unwindset=stream::Parser::<'_>::parse$:4;Request::<'_,.*>::poll_input$:3;Request::<'_,.*>::poll_output$:5;slab::IterMut<.*>.as.std::iter::Iterator>::next$:2;drop_glue::<.slab::Entry<.*>.>$:2
+// @harness name=c09_read_buffered_trace props=C09,C02 tier=quick timeout=1800 rmbody=ioerr,nogrow,nonv,nowaiters mem=20 unwindset=stream::Parser::<'_>::parse$:4;Request::<'_,.*>::poll_input$:3;Request::<'_,.*>::poll_output$:5;slab::IterMut<.*>.as.std::iter::Iterator>::next$:2;drop_glue::<.slab::Entry<.*>.>$:2
 // @bound Responder, Stdin active; the 24-byte buffer already holds [Stdin(3 symbolic bytes, pad 5) | Stdin terminator]; three consecutive poll_read calls with caller buffers of symbolic length 0..4, 4, 4; the transport is never needed
 // @functions Request::poll_read, Request::poll_input, stream::Parser::parse, consume_stream
 #[kani::proof]
@@ -292,7 +333,7 @@ fn c09_read_buffered_trace() {
     std::mem::forget(req);
 }
 
-// @harness name=c12_read_eof_midstream props=C12,C09 tier=quick timeout=1800 rmbody=ioerr,nogrow,nonv,nocontend mem=20 unwindset=stream::Parser::<'_>::parse$:4;Request::<'_,.*>::poll_input$:3;Request::<'_,.*>::poll_output$:5;slab::IterMut<.*>.as.std::iter::Iterator>::next$:2;drop_glue::<.slab::Entry<.*>.>$:2
+// @harness name=c12_read_eof_midstream props=C12,C09 tier=quick timeout=1800 rmbody=ioerr,nogrow,nonv,nowaiters mem=20 unwindset=stream::Parser::<'_>::parse$:4;Request::<'_,.*>::poll_input$:3;Request::<'_,.*>::poll_output$:5;slab::IterMut<.*>.as.std::iter::Iterator>::next$:2;drop_glue::<.slab::Entry<.*>.>$:2
 // @bound Responder, Stdin active, buffer holds a Stdin header announcing 3 bytes plus 0..2 of them (symbolic); the transport then reports EOF (or an error) after <= 1 Pending: the handler's read must fail (UnexpectedEof / the transport's error), never succeed with 0 bytes
 // @functions Request::poll_read, Request::poll_input
 #[kani::proof]
@@ -408,7 +449,7 @@ fn c08_parse_request_buffered() {
 
 // ------------------------------------------------------------------------------------------------ C07 / C11: Request::close
 
-fn close_case(keep_conn: bool, writeable: bool, pending_out: usize, raw_extra: usize) {
+fn close_case(keep_conn: bool, pending_out: usize, raw_extra: usize) {
     let cfg = sv::cfg1();
     let id: u16 = kani::any();
     kani::assume(id != 0);
@@ -418,38 +459,31 @@ fn close_case(keep_conn: bool, writeable: bool, pending_out: usize, raw_extra: u
     let mut i = 0; while i < raw_extra { raw[i] = extra[i]; i += 1; }
     let mut out = Vec::with_capacity(32);
     let mut i = 0; while i < pending_out { out.push(0xD0 + i as u8); i += 1; }
-    let role = fcgi::Role::Responder;
-    // at a record boundary, active stream already past its end is modelled by stream = None + writeable
-    let mut parser = sv::mk_code(&cfg, raw, (0, 0, 0, raw_extra), 1, role, id, None, 0, 0, out, 0);
+    // at a record boundary, all input streams done (stream = None, request writeable)
+    let mut parser = sv::mk_code(&cfg, raw, (0, 0, 0, raw_extra), 1, fcgi::Role::Responder, id, None, 0, 0, out, 0);
     parser.request.flags = fcgi::RequestFlags::from(if keep_conn { 1 } else { 0 });
-    let w = MockW::new(1, 2);
-    let req = Request { parser, input: MockR::new([0; RN], 0, 0), output: Arc::new(Mutex::new(w)), lock: None, writeable };
     let status = match kani::any::<u8>() % 3 { 0 => ExitStatus::Complete(kani::any()), 1 => ExitStatus::Overloaded, _ => ExitStatus::UnknownRole };
     let (ps, app) = match status { ExitStatus::Complete(c) => (0u8, c), ExitStatus::Overloaded => (2, 0), ExitStatus::UnknownRole => (3, 0) };
+    // expected bytes on the wire: pending replies, empty Stdout, empty Stderr, EndRequest(status)
+    let (h, l) = ((id >> 8) as u8, id as u8);
+    let a = app.to_be_bytes();
+    let mut exp = [0u8; 40];
+    let mut n = 0;
+    let mut i = 0; while i < pending_out { exp[n] = 0xD0 + i as u8; n += 1; i += 1; }
+    let tail: [u8; 32] = [1, 6, h, l, 0, 0, 0, 0,  1, 7, h, l, 0, 0, 0, 0,  1, 3, h, l, 0, 8, 0, 0,  a[0], a[1], a[2], a[3], ps, 0, 0, 0];
+    let mut i = 0; while i < 32 { exp[n] = tail[i]; n += 1; i += 1; }
+    let w = ExpectW { exp, exp_len: n, pos: 0, calls: 0, pend_budget: 1, partial_budget: 2 };
+    let req = Request { parser, input: CountR::new(0, 0), output: Arc::new(Mutex::new(w)), lock: None, writeable: true };
     let mut fut = std::mem::ManuallyDrop::new(req.close(status));
     let mut polls = 0;
     let res = loop {
         let pinned = unsafe { Pin::new_unchecked(&mut *fut) };
         match poll_once(pinned) { Poll::Ready(r) => break r, Poll::Pending => { polls += 1; assert!(polls <= 1, "only the writer may make close() wait, once"); } }
     };
-    let check_log = |w: &MockW| {
-        let streams = if writeable { 2 } else { 0 };
-        assert!(w.len == pending_out + 8 * streams + 16, "C07: bytes written at request end are not [pending replies] + [stream ends] + EndRequest");
-        let mut i = 0; while i < pending_out { assert!(w.log[i] == 0xD0 + i as u8, "C07: pending management replies must be written first, unchanged"); i += 1; }
-        let mut o = pending_out;
-        if writeable {
-            assert!(w.log[o] == 1 && w.log[o + 1] == 6 && w.log[o + 2] == (id >> 8) as u8 && w.log[o + 3] == id as u8 && w.log[o + 4] == 0 && w.log[o + 5] == 0 && w.log[o + 6] == 0, "C07: empty Stdout record missing/wrong");
-            assert!(w.log[o + 8] == 1 && w.log[o + 9] == 7 && w.log[o + 10] == (id >> 8) as u8 && w.log[o + 11] == id as u8 && w.log[o + 12] == 0 && w.log[o + 13] == 0 && w.log[o + 14] == 0, "C07: empty Stderr record missing/wrong");
-            o += 16;
-        }
-        let a = app.to_be_bytes();
-        assert!(w.log[o] == 1 && w.log[o + 1] == 3 && w.log[o + 2] == (id >> 8) as u8 && w.log[o + 3] == id as u8 && w.log[o + 4] == 0 && w.log[o + 5] == 8 && w.log[o + 6] == 0, "C07: EndRequest header wrong");
-        assert!(w.log[o + 8] == a[0] && w.log[o + 9] == a[1] && w.log[o + 10] == a[2] && w.log[o + 11] == a[3] && w.log[o + 12] == ps, "C07: EndRequest does not carry the handler's exit status");
-    };
     match res {
         Ok((rp, _r, w)) => {
             assert!(keep_conn, "C07: connection reused although the request did not set the keep-connection flag");
-            check_log(&w);
+            assert!(w.pos == w.exp_len, "C07: bytes written at request end are not [pending replies] + empty Stdout + empty Stderr + EndRequest(status, id)");
             let (il, cap, is_header, out_empty) = crate::parser::request::verif_kani::x_parser(&rp);
             assert!(il == raw_extra && cap == sv::B && is_header && out_empty, "C05/C07: next request parser must start with exactly the look-ahead bytes");
             let mut i = 0; while i < raw_extra { assert!(crate::parser::request::verif_kani::x_byte(&rp, i) == extra[i], "look-ahead bytes changed"); i += 1; }
@@ -458,31 +492,237 @@ fn close_case(keep_conn: bool, writeable: bool, pending_out: usize, raw_extra: u
         }
         Err(e) => {
             assert!(!keep_conn, "C07: connection dropped although keep-connection was requested and no I/O error occurred");
-            assert!(e.kind() == io::ErrorKind::ConnectionReset);
+            assert!(e.kind() == io::ErrorKind::ConnectionReset, "C07: close without keep-connection must end with ConnectionReset");
             std::mem::forget(e);
             kani::cover!(true, "connection closed after the request");
         }
     }
 }
 
-// @harness name=c07_close_keep_writeable props=C07,C05,C11 tier=quick timeout=1800 rmbody=ioerr,nogrow,nonv,nocontend mem=20 unwindset=stream::Parser::<'_>::parse$:3;Request::<'_,.*>::poll_input$:3;Request::<'_,.*>::poll_output$:5;slab::IterMut<.*>.as.std::iter::Iterator>::next$:2;drop_glue::<.slab::Entry<.*>.>$:2
-// @bound Request::close at a record boundary, writeable, KeepConn set, 2 bytes of pending management replies, 3 bytes of look-ahead for the next request; every ExitStatus (all u32 app statuses) and request id; writer accepting any split (<= 2 short writes) and <= 1 Pending
+// @harness name=c07_close_keep_writeable props=C07,C05,C11 tier=quick timeout=1800 rmbody=ioerr,nogrow,nonv,nowaiters,nodropreq mem=20 unwindset=WriteAll<.*>.as.futures_util::Future>::poll$:4;drop_glue::<.slab::Entry<.*>.>$:2
+// @bound Request::close at a record boundary with all input consumed (writeable), KeepConn set, 2 bytes of pending management replies, 3 bytes of look-ahead for the next request; every ExitStatus (all u32 app statuses) and request id; the transport checks every write against the expected byte sequence and accepts any split (<= 2 short writes) and <= 1 Pending
 // @functions Request::close, Request::writeable, Request::record_boundary, make_request_epilogue, stream::Parser::into_request_parser
 #[kani::proof]
 #[kani::unwind(42)]
 #[kani::stub(std::hash::RandomState::new, fixed_random_state)]
-#[kani::stub(fcgi::ProtocolVariables::parse_name, crate::verif_kani::parse_name_model)]
-#[kani::stub(fcgi::ProtocolVariables::write_response, crate::verif_kani::write_response_model)]
+#[kani::stub(stream::Parser::parse, sv::parse_contract)]
 #[kani::stub(alloc::fmt::format, crate::verif_kani::fmt_format_stub)]
-fn c07_close_keep_writeable() { close_case(true, true, 2, 3); }
+fn c07_close_keep_writeable() { close_case(true, 2, 3); }
 
-// @harness name=c07_close_nokeep props=C07 tier=quick timeout=1800 rmbody=ioerr,nogrow,nonv,nocontend mem=20 unwindset=stream::Parser::<'_>::parse$:3;Request::<'_,.*>::poll_input$:3;Request::<'_,.*>::poll_output$:5;slab::IterMut<.*>.as.std::iter::Iterator>::next$:2;drop_glue::<.slab::Entry<.*>.>$:2
+// @harness name=c07_close_nokeep props=C07 tier=quick timeout=1800 rmbody=ioerr,nogrow,nonv,nowaiters,nodropreq mem=20 unwindset=WriteAll<.*>.as.futures_util::Future>::poll$:4;drop_glue::<.slab::Entry<.*>.>$:2
 // @bound as above without KeepConn, no pending replies, no look-ahead
 // @functions Request::close, make_request_epilogue
 #[kani::proof]
 #[kani::unwind(42)]
 #[kani::stub(std::hash::RandomState::new, fixed_random_state)]
-#[kani::stub(fcgi::ProtocolVariables::parse_name, crate::verif_kani::parse_name_model)]
-#[kani::stub(fcgi::ProtocolVariables::write_response, crate::verif_kani::write_response_model)]
+#[kani::stub(stream::Parser::parse, sv::parse_contract)]
 #[kani::stub(alloc::fmt::format, crate::verif_kani::fmt_format_stub)]
-fn c07_close_nokeep() { close_case(false, true, 0, 0); }
+fn c07_close_nokeep() { close_case(false, 0, 0); }
+
+// ------------------------------------------------------------------------------------------------ async glue against the parser CONTRACT (C08, C09, C12)
+// stream::Parser::parse is replaced by sv::parse_contract (any consumption, any replies, any delivery, errors);
+// the harnesses below therefore cover poll_input / poll_output for every parser behaviour and every transport
+// behaviour within the call budgets.
+
+/// Transport stubs for the glue harnesses (parser replaced by its contract): only COUNT bytes - contents are
+/// irrelevant there, and byte-copy loops with symbolic bounds are what makes CBMC run out of memory.
+pub(crate) struct CountR { pub avail: usize, pub pos: usize, pub calls: usize, pub pend_budget: usize, pub fail: u8, pub last_pending: bool, pub said_eof: bool, pub said_err: bool }
+impl CountR { pub(crate) fn new(avail: usize, pend_budget: usize) -> Self { CountR { avail, pos: 0, calls: 0, pend_budget, fail: 0, last_pending: false, said_eof: false, said_err: false } } }
+impl AsyncRead for CountR {
+    fn poll_read(self: Pin<&mut Self>, _cx: &mut Context<'_>, buf: &mut [u8]) -> Poll<io::Result<usize>> {
+        let this = self.get_mut();
+        this.calls += 1;
+        this.last_pending = false;
+        if this.pend_budget > 0 && kani::any() { this.pend_budget -= 1; this.last_pending = true; return Poll::Pending; }
+        let left = this.avail - this.pos;
+        if left == 0 || buf.is_empty() {
+            if this.fail == 1 { this.said_err = true; return Poll::Ready(Err(io::ErrorKind::BrokenPipe.into())); }
+            this.said_eof = true;
+            return Poll::Ready(Ok(0));
+        }
+        let k: usize = kani::any();
+        kani::assume(1 <= k && k <= left && k <= buf.len());
+        this.pos += k;
+        Poll::Ready(Ok(k))
+    }
+}
+pub(crate) struct CountW { pub len: usize, pub calls: usize, pub pend_budget: usize, pub partial_budget: usize, pub fail_at: usize, pub failed: bool, pub writes_after_fail: usize }
+impl CountW { pub(crate) fn new(pend_budget: usize, partial_budget: usize) -> Self { CountW { len: 0, calls: 0, pend_budget, partial_budget, fail_at: 0, failed: false, writes_after_fail: 0 } } }
+impl AsyncWrite for CountW {
+    fn poll_write(self: Pin<&mut Self>, _cx: &mut Context<'_>, buf: &[u8]) -> Poll<io::Result<usize>> {
+        let this = self.get_mut();
+        this.calls += 1;
+        if this.failed { this.writes_after_fail += 1; }
+        if this.fail_at != 0 && this.calls == this.fail_at { this.failed = true; return Poll::Ready(Err(io::ErrorKind::BrokenPipe.into())); }
+        if this.pend_budget > 0 && kani::any() { this.pend_budget -= 1; return Poll::Pending; }
+        let mut k = buf.len();
+        if this.partial_budget > 0 && k > 1 {
+            let c: usize = kani::any();
+            kani::assume(1 <= c && c <= k);
+            if c < k { this.partial_budget -= 1; }
+            k = c;
+        }
+        this.len += k;
+        Poll::Ready(Ok(k))
+    }
+    fn poll_flush(self: Pin<&mut Self>, _cx: &mut Context<'_>) -> Poll<io::Result<()>> { Poll::Ready(Ok(())) }
+    fn poll_close(self: Pin<&mut Self>, _cx: &mut Context<'_>) -> Poll<io::Result<()>> { Poll::Ready(Ok(())) }
+}
+
+fn glue_request<'a>(cfg: &'a Config, r: CountR, w: CountW, role: fcgi::Role, stream: Option<fcgi::RecordType>, writeable: bool,
+                    buffered: usize, pending_out: usize) -> Request<'a, CountR, CountW> {
+    let mut raw = [0u8; sv::B];
+    let mut i = 0;
+    while i < buffered { raw[i] = unsafe { sv::GS_STREAM[i] }; i += 1; }
+    let mut out = Vec::with_capacity(32);
+    let mut i = 0; while i < pending_out { out.push(0xA0 + i as u8); i += 1; }
+    unsafe { sv::GS_POS = buffered; sv::GS_OUT_TOTAL = pending_out; }
+    // `buffered` stream bytes are already parsed into the stream buffer: geometry (0, buffered, buffered, buffered)
+    let parser = sv::mk_code(cfg, raw, (0, buffered, buffered, buffered), 1, role, 1, stream, 0, 0, out, 0);
+    Request { parser, input: r, output: Arc::new(Mutex::new(w)), lock: None, writeable }
+}
+
+fn glue_poll_read_case(buffered_max: usize, pend_sym: bool, d_fixed: Option<usize>) {
+    let cfg = sv::cfg1();
+    let gs: [u8; 8] = kani::any();
+    unsafe { sv::GS_STREAM = gs; sv::GS_ERR_BUDGET = 1; }
+    let buffered: usize = if buffered_max == 0 { 0 } else { let x: usize = kani::any(); kani::assume(x <= buffered_max); x };
+    let pending_out: usize = if pend_sym && kani::any() { 2 } else { 0 };
+    let mut r = CountR::new(2, 1);
+    r.fail = if kani::any() { 1 } else { 0 };
+    let mut req = glue_request(&cfg, r, CountW::new(1, 1), fcgi::Role::Responder, Some(fcgi::RecordType::Stdin), true, buffered, pending_out);
+    let mut cx = noop_cx();
+    let d: usize = match d_fixed { Some(x) => x, None => { let x: usize = kani::any(); kani::assume(x <= 4); x } };
+    let mut b = [0xEEu8; 4];
+    match Pin::new(&mut req).poll_read(&mut cx, &mut b[..d]) {
+        Poll::Ready(Ok(n)) => {
+            assert!(n <= d, "more bytes reported than the caller's buffer holds");
+            let mut i = 0;
+            while i < n { assert!(b[i] == gs[i], "C09: bytes handed to the caller are not the stream's bytes in order, each once"); i += 1; }
+            assert!(n + req.parser.stream_buffer().len() == unsafe { sv::GS_POS }, "C09: delivered bytes are neither with the caller nor in the stream buffer");
+            if buffered > 0 && d > 0 {
+                assert!(n == if d < buffered { d } else { buffered } && req.input.calls == 0 && unsafe { sv::GS_PARSE_CALLS } == 0,
+                        "C09: buffered stream data must be served first, without parsing or touching the transport");
+                kani::cover!(d < buffered, "caller buffer smaller than the buffered data");
+            }
+            if n == 0 && d > 0 { assert!(unsafe { sv::GS_END }, "C09/C12: a 0-byte read (end of file) although the stream has not ended"); kani::cover!(true, "end of stream reported"); }
+            assert!(!req.input.said_eof && !req.input.said_err || n > 0 || unsafe { sv::GS_END }, "C12: transport EOF/error turned into a successful empty read");
+            kani::cover!(n == 3 && buffered == 0, "three bytes delivered directly into the caller's buffer");
+            kani::cover!(d == 0, "zero-length caller buffer");
+        }
+        Poll::Ready(Err(e)) => {
+            let k = e.kind(); std::mem::forget(e);
+            if req.input.said_eof { assert!(k == io::ErrorKind::UnexpectedEof, "C12: end of file inside a stream must surface as UnexpectedEof"); }
+            if req.input.said_err { assert!(k == io::ErrorKind::BrokenPipe, "C12: the transport's read error must be passed on unchanged"); }
+            kani::cover!(k == io::ErrorKind::UnexpectedEof, "EOF inside the stream");
+            kani::cover!(k == io::ErrorKind::ConnectionAborted, "abort reported by the parser");
+            kani::cover!(k == io::ErrorKind::BrokenPipe, "transport error passed on");
+        }
+        Poll::Pending => {
+            if req.input.last_pending {
+                // suspended on the reader
+                assert!(req.parser.output_buffer().is_empty(), "C08:reply-owed-at-read-pending: waiting for client input while replies are still in the parser's output buffer");
+                let w = req.output.try_lock().expect("output lock must be free while waiting for input");
+                assert!(w.len == unsafe { sv::GS_OUT_TOTAL }, "C08:reply-not-on-transport-at-read-pending");
+                assert!(unsafe { sv::GS_FED } == req.input.pos, "C08: bytes read from the transport were not handed to the parser before waiting again");
+                kani::cover!(unsafe { sv::GS_OUT_TOTAL } > pending_out, "waiting for input with a freshly produced reply flushed");
+                std::mem::forget(w);
+            } else {
+                kani::cover!(true, "suspended on the writer");
+            }
+            // bytes delivered by the parser in this call must not be lost by a Pending result
+            assert!(req.parser.stream_buffer().len() == unsafe { sv::GS_POS }, "C09: stream bytes were delivered by the parser into the caller's buffer but the call returned Pending (bytes lost)");
+        }
+    }
+    std::mem::forget(req);
+}
+
+
+// @harness name=c09_glue_poll_read_min props=C09,C08,C12 tier=quick timeout=1800 rmbody=ioerr,nogrow,nowaiters mem=20 unwindset=Request::<'_,.*>::poll_input$:5;Request::<'_,.*>::poll_output$:4;drop_glue::<.slab::Entry<.*>.>$:2 dead=2
+// @bound ONE poll of Request::poll_read against the parser contract: nothing buffered, no pending replies, caller buffer of 4 bytes; reader: <= 2 reads of symbolic size, <= 1 Pending, then EOF or error; writer: any split (<= 1 short write), <= 1 Pending; parser contract: any consumption / replies / delivery (<= 3 bytes per call) / end of stream / <= 1 error. Sequences of polls follow by induction over the symbolic state
+// @functions Request::poll_read, Request::poll_input, Request::poll_output, RepeatableLockFuture::poll
+#[kani::proof]
+#[kani::unwind(8)]
+#[kani::stub(std::hash::RandomState::new, fixed_random_state)]
+#[kani::stub(stream::Parser::parse, sv::parse_contract)]
+#[kani::stub(stream::Parser::compress, sv::compress_contract)]
+fn c09_glue_poll_read_min() { glue_poll_read_case(0, false, Some(4)); }
+
+// @harness name=c09_glue_poll_read_pending props=C09,C08,C12 tier=quick timeout=1800 rmbody=ioerr,nogrow,nowaiters mem=20 unwindset=Request::<'_,.*>::poll_input$:5;Request::<'_,.*>::poll_output$:4;drop_glue::<.slab::Entry<.*>.>$:2 dead=1
+// @bound ONE poll of Request::poll_read against the parser contract: nothing buffered, 0 or 2 reply bytes pending, caller buffer 0..4; reader: <= 2 reads of symbolic size, <= 1 Pending, then EOF or error; writer: any split (<= 1 short write), <= 1 Pending; parser contract: any consumption / replies / delivery (<= 3 bytes per call) / end of stream / <= 1 error. Sequences of polls follow by induction over the symbolic state
+// @functions Request::poll_read, Request::poll_input, Request::poll_output, RepeatableLockFuture::poll
+#[kani::proof]
+#[kani::unwind(8)]
+#[kani::stub(std::hash::RandomState::new, fixed_random_state)]
+#[kani::stub(stream::Parser::parse, sv::parse_contract)]
+#[kani::stub(stream::Parser::compress, sv::compress_contract)]
+fn c09_glue_poll_read_pending() { glue_poll_read_case(0, true, None); }
+
+// @harness name=c09_glue_poll_read_buffered props=C09,C08,C12 tier=thorough timeout=1800 rmbody=ioerr,nogrow,nowaiters mem=20 unwindset=Request::<'_,.*>::poll_input$:5;Request::<'_,.*>::poll_output$:4;drop_glue::<.slab::Entry<.*>.>$:2
+// @bound ONE poll of Request::poll_read against the parser contract: 0..2 stream bytes buffered, 0 or 2 reply bytes pending, caller buffer 0..4; reader: <= 2 reads of symbolic size, <= 1 Pending, then EOF or error; writer: any split (<= 1 short write), <= 1 Pending; parser contract: any consumption / replies / delivery (<= 3 bytes per call) / end of stream / <= 1 error. Sequences of polls follow by induction over the symbolic state
+// @functions Request::poll_read, Request::poll_input, Request::poll_output, RepeatableLockFuture::poll
+#[kani::proof]
+#[kani::unwind(8)]
+#[kani::stub(std::hash::RandomState::new, fixed_random_state)]
+#[kani::stub(stream::Parser::parse, sv::parse_contract)]
+#[kani::stub(stream::Parser::compress, sv::compress_contract)]
+fn c09_glue_poll_read_buffered() { glue_poll_read_case(2, true, None); }
+
+// @harness name=c08_glue_parse_request props=C08,C07,C12 tier=quick timeout=1800 rmbody=ioerr,nogrow,nodropreq mem=20 unwindset=Token::parse_request::<.*>::.closure.0.$:5;WriteAll<.*>.as.futures_util::Future>::poll$:3
+// @bound Token::parse_request against the request parser's contract (any consumption, 0|2 reply bytes per call, done or not): 0..24 bytes handed over by the previous request; reader: <= 2 bytes in <= 2 reads, <= 1 Pending, then EOF/error; writer: <= 1 short write, <= 1 Pending; polled up to 4 times
+// @functions Token::parse_request, AsyncReadExt::read, AsyncWriteExt::write_all, request::Parser::input_buffer
+#[kani::proof]
+#[kani::unwind(10)]
+#[kani::stub(std::hash::RandomState::new, fixed_random_state)]
+#[kani::stub(request::Parser::parse, crate::parser::request::verif_kani::rparse_contract)]
+fn c08_glue_parse_request() {
+    use crate::parser::request::verif_kani as rv;
+    let cfg = sv::cfg1();
+    let buf: [u8; sv::B] = kani::any();
+    let handed: usize = kani::any();
+    kani::assume(handed <= sv::B);
+    let parser = rv::mk_header_parser(&cfg, buf, handed);
+    let mut r = CountR::new(2, 1);
+    r.fail = if kani::any() { 1 } else { 0 };
+    let mut w = CountW::new(1, 1);
+    let rp: *const CountR = &r;
+    let wp: *const CountW = &w;
+    let mut fut = std::mem::ManuallyDrop::new(Token::parse_request(parser, &mut r, &mut w));
+    let mut polls = 0;
+    loop {
+        polls += 1;
+        assert!(polls <= 4, "parse_request must make progress");
+        let pinned = unsafe { Pin::new_unchecked(&mut *fut) };
+        match poll_once(pinned) {
+            Poll::Ready(res) => {
+                match &res {
+                    Ok(_) => { let rr = unsafe { &*rp }; assert!(!rr.said_eof && !rr.said_err, "C12: a request was handed out although the transport ended / failed before the parser finished"); kani::cover!(true, "preamble complete"); }
+                    Err(e) => {
+                        let rr = unsafe { &*rp };
+                        if rr.said_eof { assert!(e.kind() == io::ErrorKind::ConnectionReset, "C12: EOF before a complete preamble must end the connection quietly (ConnectionReset)"); }
+                        if rr.said_err { assert!(e.kind() == io::ErrorKind::BrokenPipe, "C12: the transport's read error must be passed on"); }
+                        kani::cover!(e.kind() == io::ErrorKind::ConnectionReset, "EOF before a complete preamble: connection closed quietly");
+                    }
+                }
+                let (rr, ww) = unsafe { (&*rp, &*wp) };
+                if res.is_ok() || !ww.failed { assert!(ww.len <= unsafe { rv::GR_OUT_TOTAL }); }
+                let _ = rr;
+                std::mem::forget(res);
+                break;
+            }
+            Poll::Pending => {
+                let (rr, ww) = unsafe { (&*rp, &*wp) };
+                if rr.last_pending {
+                    // suspended waiting for the client
+                    assert!(unsafe { rv::GR_PARSE_CALLS } >= 1, "C08:buffered-record-unprocessed-at-read-pending: parse_request waits for client input before parsing the bytes handed over by the previous request");
+                    assert!(unsafe { rv::GR_FED } == rr.pos, "C08: bytes read from the transport were not handed to the parser before waiting again");
+                    assert!(ww.len == unsafe { rv::GR_OUT_TOTAL }, "C08:reply-not-on-transport-at-read-pending");
+                    kani::cover!(unsafe { rv::GR_OUT_TOTAL } >= 2, "waiting for input with a reply already written");
+                    kani::cover!(handed > 0 && rr.pos == 0, "first wait, handed-over bytes already parsed");
+                } else {
+                    kani::cover!(true, "suspended on the writer");
+                }
+            }
+        }
+    }
+}
